@@ -71,3 +71,34 @@ H_ENTRY(h_pvss_group) {
   }
   H_END();
 }
+
+#include "NaorPinkasEOTP.hh"
+#include "JareckiLysyanskayaASTC.hh"
+H_ENTRY(h_eotp_group) {
+  long q = vfh_range(-1, (1L << H_W)), g = vfh_range(-1, (1L << H_W) + 2);
+  Z P(H_P), Q(q), G(g);
+  NaorPinkasEOTP *v = 0;
+  H_TRY(v = new NaorPinkasEOTP(P, Q, G, FSZ, GSZ));
+  vf_assert(vfh_exc == 0 || vfh_exc == 1, "constructor returns or refuses with a standard exception");
+  bool constructed = (vfh_exc == 0 && v != 0), got = false;
+  if (constructed) { H_TRY(got = v->CheckGroup()); vf_assert(vfh_exc == 0, "CheckGroup returns (no exception) on arbitrary parameters"); }
+  long k = (q > 0) ? (H_P - 1) / q : 0;
+  bool spec = q > 0 && spec_pq(H_P, q, k) && g > 1 && g < H_P - 1 && powmod(g, q, H_P) == 1;
+  vf_assert(got == spec, "NaorPinkasEOTP: construction + CheckGroup accept exactly the well-formed parameter sets");
+  if (got) { long a = vfh_range(-2, H_P + 3); Z A(a); vf_assert(v->CheckElement(A) == (a > 0 && a < H_P && powmod(a, q, H_P) == 1), "CheckElement accepts exactly the members of the order-q subgroup in 1..p-1"); }
+  H_END();
+}
+H_ENTRY(h_rvss_group) {
+  long q = vfh_range(-1, (1L << H_W)), g = vfh_range(-1, (1L << H_W) + 2), h = vfh_range(-1, (1L << H_W) + 2);
+  Z P(H_P), Q(q), G(g), Hh(h);
+  JareckiLysyanskayaRVSS *v = 0;
+  H_TRY(v = new JareckiLysyanskayaRVSS(2, 0, P, Q, G, Hh, FSZ, GSZ));
+  vf_assert(vfh_exc == 0 || vfh_exc == 1, "constructor returns or refuses with a standard exception");
+  bool constructed = (vfh_exc == 0 && v != 0), got = false;
+  if (constructed) { H_TRY(got = v->CheckGroup()); vf_assert(vfh_exc == 0, "CheckGroup returns (no exception) on arbitrary parameters"); }
+  long k = (q > 0) ? (H_P - 1) / q : 0;
+  bool spec = q > 0 && spec_pq(H_P, q, k) && powmod(h, q, H_P) == 1 && powmod(g, q, H_P) == 1 && h > 1 && h < H_P - 1 && g > 1 && g < H_P - 1 && g != h;
+  vf_assert(got == spec, "JareckiLysyanskayaRVSS: construction + CheckGroup accept exactly the well-formed parameter sets");
+  if (got) { long a = vfh_range(-2, H_P + 3); Z A(a); vf_assert(v->CheckElement(A) == (a > 0 && a < H_P && powmod(a, q, H_P) == 1), "CheckElement accepts exactly the members of the order-q subgroup in 1..p-1"); }
+  H_END();
+}
